@@ -358,3 +358,18 @@ reg("C15", "c15",
     "the git-bug refs, garbage-collects, mirror-clones and fscks, and git-bug lists the bugs again. TLC accepts a session only "
     "if every step satisfies the frame condition.",
     "git fsck is the judge of object validity. No bridge configuration (needs the network).", "DESIGN.md section 4, C15")
+
+reg("C16", "c16",
+    "TLA+ spec Bridge.tla model-checked by TLC; TLC-simulated scenarios run with the real GitLab importer against a simulated "
+    "GitLab server with failure injection; traces validated by TLC",
+    "TLC explores tracker histories of 2 issues (comments and their edits, title and description changes, label and state events), "
+    "up to 3 import rounds with growth in between and a failure of any request class in any round, and checks that a round "
+    "without error leaves everything that changed before it imported exactly once, that the cursor moves iff no error was reported, "
+    "that nothing imported is ever lost and that a round over an unchanged tracker imports nothing. Scenarios simulated by TLC "
+    "(plus a catalogue) are executed by the real importer (bridge.LoadBridge + ImportAll) against an in-process GitLab "
+    "simulator serving hostile texts (control characters, unicode, long lines) with HTTP 400 injected per request class; after "
+    "every step the harness logs, per issue, the GitLab ids carried by the bug's operations with multiplicity, the anonymous edit "
+    "operations, validity, the error flag and whether the stored cursor moved; TLC accepts a trace only if every round is the "
+    "specification's clean or failed round.",
+    "GitLab only (no network for the others); one page per listing; deleted users and transport-level failures are not part of "
+    "the validated scenarios.", "DESIGN.md section 4, C16")
